@@ -211,6 +211,15 @@ impl Run {
                 obj.insert("hgid".into(), hgid.into());
             }
         }
+        if ev == "tmo.set" {
+            for k in ["default_ns", "chosen_ns"] {
+                if let Some(ns) = obj.get(k).and_then(Value::as_u64) {
+                    let us = (ns / 1_000).min(2_000_000_000);
+                    obj.insert(k.replace("_ns", "_us"), us.into());
+                }
+                obj.remove(k);
+            }
+        }
         obj.remove("node");
         // normalise values
         let keys: Vec<String> = obj.keys().cloned().collect();
